@@ -64,7 +64,9 @@ impl<T, A: Allocator> RawTable<T, A> {
     #[verifier::external_body]
     pub fn table_layout() -> (r: TableLayout) { unimplemented!() }
 }
-pub struct RawIter<T> { pub n: usize, pub marker: Ghost<Option<T>> }
+/// life of the memory a raw iterator points into (only meaningful for the iterator owned by a RawIntoIter)
+pub struct LifeCell { pub v: Ghost<Life> }
+pub struct RawIter<T> { pub n: usize, pub mem: LifeCell, pub marker: Ghost<Option<T>> }
 impl<T> RawIter<T> {
     pub open spec fn spec_len(&self) -> usize { self.n }
     #[verifier::when_used_as_spec(spec_len)]
@@ -130,4 +132,46 @@ pub mod ptr {
     pub fn read(t: &RawTableInner) -> (r: RawTableInner)
         ensures r == *t,
     { unimplemented!() }
+}
+
+// ---- RawTable::into_iter / into_iter_from / RawIntoIter::drop ----
+#[derive(Clone, Copy)]
+pub struct Layout { pub size: usize, pub align: usize }
+pub struct RawIntoIter<T, A> {
+    pub iter: RawIter<T>,
+    pub allocation: Option<(usize, Layout, A)>,
+    pub marker: PhantomData<T>,
+}
+impl<T> RawIter<T> {
+    // RawIter::drop_elements (contract proved in unit iter: exactly the elements not yet yielded, each once); the
+    // memory they live in must still be there, and a second call would drop them twice
+    #[verifier::external_body]
+    pub fn drop_elements(&mut self)
+        requires !old(self).mem.v@.dropped, !old(self).mem.v@.freed,
+        ensures final(self).mem.v@.dropped, final(self).mem.v@.freed == old(self).mem.v@.freed,
+            final(self).mem.v@.cleared == old(self).mem.v@.cleared, final(self).n == old(self).n,
+    { unimplemented!() }
+}
+// R42: `alloc.deallocate(ptr, layout)` in RawIntoIter::drop -> `dealloc_of(&mut self.iter.mem, alloc, ptr, layout)`:
+// the block is given back once, and only after the elements in it are gone
+#[verifier::external_body]
+pub fn dealloc_of<A: Allocator>(mem: &mut LifeCell, alloc: &A, ptr: usize, layout: Layout)
+    requires !old(mem).v@.freed, old(mem).v@.dropped,
+    ensures final(mem).v@.freed, final(mem).v@.dropped == old(mem).v@.dropped, final(mem).v@.cleared == old(mem).v@.cleared,
+{ unimplemented!() }
+impl<T, A: Allocator> RawTable<T, A> {
+    // RawTable::iter: one item per element, over this table's memory
+    #[verifier::external_body]
+    pub fn iter(&self) -> (r: RawIter<T>)
+        ensures r.n == self.table.items, r.mem.v@ == self.table.life@,
+    { unimplemented!() }
+    // contract proved in unit alloc: the singleton owns nothing, every allocated table hands its block on
+    #[verifier::external_body]
+    pub fn into_allocation(self) -> (r: Option<(usize, Layout, A)>)
+        ensures (r is Some) == (self.table.bucket_mask != 0),
+    { unimplemented!() }
+}
+impl<T, A: Allocator> RawIntoIter<T, A> {
+    /// the owning iterator holds an allocation exactly when its memory is a real table's
+    pub open spec fn owns(&self) -> bool { self.allocation is Some }
 }
